@@ -168,9 +168,9 @@ theorem C07_ro_pure (R : ViewRel) (c : Cfg) (h : List Sched)
 /-! ### non-vacuity: a commit, then the closing steps -/
 
 /-- commit one entry; `Close`: hand the memtable to the flusher (`flushReq`, first atom
-    `pushImm`) and let the flusher run (6 atoms) -/
+    `pushImm`) and let the flusher run (7 atoms) -/
 def closeDemo : List Sched :=
-  [.commit [demoEnt 1 1] false, .w, .w, .w, .w, .w, .w, .w, .flushReq, .w, .f, .f, .f, .f, .f, .f]
+  [.commit [demoEnt 1 1] false, .w, .w, .w, .w, .w, .w, .w, .flushReq, .w, .f, .f, .f, .f, .f, .f, .f]
 
 set_option maxHeartbeats 1000000 in
 example : ((MState.init {}).exec closeDemo).p.curOpen = false ∧ ((MState.init {}).exec closeDemo).p.imm = [] ∧
